@@ -268,6 +268,14 @@ def build_objects(pr):
             if pr.p == 1:
                 sigma_v = sigma_v[0]
         offs = [xu.with_unit(pm.Normal(f"dv0_{j+1}", o["mu"], o["sigma"]), U(o["unit"])) for j, o in enumerate(d["offsets"])]
+        # the list handed to JokerPrior need not be in name order: the parameter NAMED dv0_k belongs to the k-th further
+        # survey whatever its position in the list (decided from the declared content, not from the generator, so that
+        # the case streams do not move)
+        if len(offs) >= 2 and int(abs(float(d["offsets"][0]["mu"])) * 1e6 + abs(float(d["offsets"][-1]["sigma"])) * 1e6) % 2 == 1:
+            offs = offs[::-1]
+            d["offsets_list_order"] = "reversed"
+        elif len(offs) >= 2:
+            d["offsets_list_order"] = "by name"
         kw = {}
         if K["kind"] == "fcm" and not K["explicit"]:
             kw = dict(sigma_K0=K["sigma_K0"] * U(K["unit"]), P0=K["P0"] * U(K["P0_unit"]))
